@@ -214,6 +214,9 @@ def scalar_getattr(I, v, name):
         return Builtin("scalar.item", lambda I_, a, k: v)
     if name == "copy":
         return Builtin("scalar.copy", lambda I_, a, k: v)
+    import numpy as _np
+    if hasattr(_np.float64, name) or hasattr(int, name):
+        raise Unsupported(f"scalar attribute {name} is not modelled")
     raise PyExc("AttributeError", (f"numeric value has no attribute '{name}'",))
 
 
@@ -617,6 +620,9 @@ def make_numpy(extra=None):
             self.name, self.op = name, op
 
         def py_call(self, I, a, k):
+            if k:
+                # out=, where=, dtype=, casting= ... (writing into views of other arrays is not modelled)
+                raise Unsupported(f"np.{self.name}: keyword argument(s) {sorted(k)} not modelled")
             return ops.binop(I, self.op, a[0], a[1])
 
         def py_getattr(self, I, name):
